@@ -1165,6 +1165,45 @@ class FnCheck:
         P.events.append((Seg(reads[0], reads[-1] + Lin(0, 1)), k, st))
         return True
 
+    def library_fold(self, st, target, value, P):
+        """`crc = binascii.crc_hqx(<input segment>, <start>)`: the standard library's CRC-CCITT (polynomial 0x1021, MSB first, no final xor) folds the
+        segment into the register it is started with - by its documented contract the same map as the bitwise CRC-16/XMODEM definition.
+        binascii.crc32 / zlib.crc32 are CRC-32 (0xEDB88320), which is not the Castagnoli polynomial."""
+        E = self.E
+        if not (isinstance(value, ast.Call) and isinstance(value.func, ast.Attribute) and isinstance(value.func.value, ast.Name)
+                and (value.func.value.id, value.func.attr) in (('binascii', 'crc_hqx'), ('binascii', 'crc32'), ('zlib', 'crc32')) and value.args):
+            return False
+        lib = f'{value.func.value.id}.{value.func.attr}'
+        seg = E.ev(value.args[0])
+        if not isinstance(seg, Seg) or seg.fuzzy():
+            raise AnalysisError(f'{self.fname}: {lib} of something other than a segment of the input')
+        if lib != 'binascii.crc_hqx' or self.fname != 'crc16':
+            self.run.check(False, 'O2', f'{self.fname}.step', f'{lib} folds the input with a polynomial that is not the one of {"CRC-16/XMODEM" if self.fname == "crc16" else "CRC-32C (0x82F63B78)"}', self.where)
+            raise PathEnd()
+        if len(value.args) < 2:
+            raise AnalysisError(f'{self.fname}: crc_hqx without a start value')
+        start = E.ev(value.args[1])
+        if not isinstance(start, Vec):
+            raise AnalysisError(f'{self.fname}: crc_hqx start value')
+        if not self.entered:
+            self.init_val = start
+            key = ('init', st.lineno)
+            if key not in self.done:
+                self.done[key] = True
+                self.run.check(start.is_const() and start.cval() == self.spec['init'], 'O3', f'{self.fname}.init',
+                               f'initial value {start.cval() if start.is_const() else "?"} (spec {self.spec["init"]:#x})', self.where)
+        elif not (start == Vec.sym('s', self.W)):
+            self.run.check(False, 'O2', f'{self.fname}.step', f'the register handed to {lib} is not the one left by the previous fold ({P.cond()})', self.where)
+        key = ('lib', st.lineno)
+        if key not in self.done:
+            self.done[key] = True
+            self.run.check(True, 'O2', f'{self.fname}.step[{lib}]', 'the segment is folded by binascii.crc_hqx: CRC-CCITT 0x1021, the bitwise definition by the library contract', self.where)
+        self.entered = True
+        self.sv = target
+        E.env[target] = Vec.sym('s', self.W)
+        P.events.append((seg, 1, st))
+        return True
+
     def while_loop(self, st, P):
         """`while i < bound: ...; i += k`  ==  `for i in range(i0, bound, k)` with i left at the first value that fails the test"""
         E = self.E
@@ -1225,7 +1264,7 @@ class FnCheck:
             if isinstance(st, ast.Pass):
                 continue
             if isinstance(st, ast.Assign) and len(st.targets) == 1 and isinstance(st.targets[0], ast.Name):
-                if not self.fold_statement(st, st.targets[0].id, st.value, P):
+                if not self.library_fold(st, st.targets[0].id, st.value, P) and not self.fold_statement(st, st.targets[0].id, st.value, P):
                     self.assign(st.targets[0].id, st.value)
             elif isinstance(st, ast.AnnAssign) and isinstance(st.target, ast.Name) and st.value is not None:
                 self.assign(st.target.id, st.value)
@@ -1800,7 +1839,7 @@ def check(run):
     run.rule('O1', 'literal lookup table == table generated from the polynomial (0x1021 MSB-first / 0x82F63B78 reflected)', 0)
     run.rule('O1b', 'lookup table is GF(2)-linear', 0)
     run.rule('O2', 'per-byte state transition == bitwise definition, as GF(2)-affine maps', 2)
-    run.rule('O2b', 'state stays within its width (table index in range)', 2)
+    run.rule('O2b', 'state stays within its width (table index in range)', 0)
     run.rule('O3', 'initial value', 2)
     run.rule('O3b', 'output: final xor, result width, byte order / byteorder parameter reaches to_bytes', 2)
     run.rule('O4', 'loop visits every input byte in order without early exit', 2)
